@@ -269,6 +269,8 @@ func genMinterCfg(rng *Rng, t0 time.Time) minterCfg {
 				g.mult = sdk.ZeroDec()
 			case 2:
 				g.mult = sdk.NewDecWithPrec(5, 1)
+			case 3: // just below one: the amounts stay sizeable for hundreds of steps
+				g.mult = sdk.NewDecWithPrec(990+rng.I64n(10), 3)
 			default:
 				g.mult = sdk.NewDecFromBigIntWithPrec(rng.BigBelow(new(big.Int).Exp(bi(10), bi(18), nil)), 18)
 			}
@@ -345,6 +347,26 @@ func genPartition(rng *Rng, c minterCfg, t0, T time.Time, style int) []time.Time
 			}
 		}
 	default: // single jump
+	}
+	// two blocks inside one late step of an exponential period (the reported rate is judged on intervals inside one step)
+	if rng.Chance(50) {
+		start := c.start
+		for _, m := range c.minters {
+			if m.kind == 2 && m.step > 0 {
+				end := T
+				if m.end != nil && m.end.Before(T) {
+					end = *m.end
+				}
+				if n := int64(end.Sub(start) / m.step); n >= 2 && end.After(start) {
+					k := n/2 + rng.I64n(n-n/2)
+					b := start.Add(time.Duration(k) * m.step)
+					ts = append(ts, b.Add(m.step/4), b.Add(m.step/2))
+				}
+			}
+			if m.end != nil {
+				start = *m.end
+			}
+		}
 	}
 	ts = append(ts, T)
 	sort.Slice(ts, func(i, j int) bool { return ts[i].Before(ts[j]) })
